@@ -276,6 +276,17 @@ impl Monitor for DeliveryMon {
         if matches!(rec.kind, ArmKind::Flush) {
             rep.count("c01.flush_arms");
         }
+        if !_sim.unix_peers.is_empty() {
+            for post in rec.post.iter() {
+                if let Some(pre) = find(&rec.pre, post.conn_id)
+                    && pre.queued + matches!(rec.kind, ArmKind::Client { .. }) as i32 > 4
+                    && post.queued == 0
+                    && post.connected
+                {
+                    rep.count("c01.short_send.flushes_over_4_datagrams");
+                }
+            }
+        }
     }
 
     fn finish(&mut self, inj: &[Injected], _sim: &Sim, rep: &mut Report) {
